@@ -113,6 +113,25 @@ def _iter_toplevel(stmts):
             yield from _iter_toplevel(s.finalbody)
 
 
+def _number(tree):
+    """Pre-order numbers: `_ord` of a node, `_ord_end` the largest number below it."""
+    counter = [0]
+
+    def go(n):
+        counter[0] += 1
+        n._ord = counter[0]
+        for c in ast.iter_child_nodes(n):
+            go(c)
+        n._ord_end = counter[0]
+    import sys as _sys
+    old = _sys.getrecursionlimit()
+    _sys.setrecursionlimit(max(old, 10000))
+    try:
+        go(tree)
+    finally:
+        _sys.setrecursionlimit(old)
+
+
 class Program:
     """All non-vendored modules under <repo>/stone."""
 
@@ -214,6 +233,7 @@ class Program:
             for node in ast.walk(tree):
                 for child in ast.iter_child_nodes(node):
                     child._parent = node
+            _number(tree)
 
     # ------------------------------------------------------------------
     def _abs_module(self, m, level, modname):
